@@ -366,7 +366,8 @@ def run(ctx: core.Ctx):
     rows = ctx.cases("c20tab", HEADER + REG_TABLE_FN, [strlit(e) for e in info["engines"]], per_file=50,
                      result_ty="str", fn="table_of")
     tables = {e: [x.split(",") for x in (r or "").split(";") if x] for e, r in zip(info["engines"], rows)}
-    names_tables = {e: [r for r in rows if len(r) == 3 and r[1] not in ("functions", "types")] for e, rows in tables.items()}
+    names_tables = {e: [r for r in rows if len(r) == 3 and r[1] not in ("functions", "types")] + [["types", "Row", "Row"]]
+                    for e, rows in tables.items() if rows}
     if not any(names_tables.values()):
         ctx.broken("model:reg_table", "could not evaluate reg_table gen_facts")
     scripts, n_exh = make_scripts(ctx, info, names_tables)
@@ -442,18 +443,19 @@ def evaluate(ctx, keep, verdicts, proved, n_exh, n_scripts, info):
                     bad = [row[1] for row, ch in zip(ev[2], got) if ch != "1"]
                     deviations.setdefault("C20/documented-class-not-engine-object:" + ",".join(sorted(bad))[:80],
                                           []).append((len(sc["events"]), sc, res, -1, "documented class is not sqlframe's object"))
-        explained = True
-        first_rej = None
+        first_mis = first_rej = None
         for i, st in enumerate(steps):
             if st[0] == "u":
                 n_abstain += 1
-            if st[0] == "0":
-                explained = False
-                model_fail.append({"env": sc["env"], "events": sc["events"], "step": i, "event": core_evs[i][0],
-                                   "implementation": core_evs[i][1], "verdict": v})
-                break
+            if st[0] == "0" and first_mis is None:
+                first_mis = i
             if st[1] == "0" and first_rej is None:
                 first_rej = i
+        if first_mis is not None:
+            model_fail.append({"env": sc["env"], "events": sc["events"], "step": first_mis, "event": core_evs[first_mis][0],
+                               "implementation": core_evs[first_mis][1], "verdict": v})
+        # a rejected step is explained by the model only if everything up to and including it agrees with the model
+        explained = first_mis is None or (first_rej is not None and first_mis > first_rej)
         if first_rej is not None:
             letter = steps[first_rej][2]
             hist_diag[letter] = hist_diag.get(letter, 0) + 1
